@@ -1,0 +1,2 @@
+//! verification hooks for engine `typing` (cfg(xray_verif) only)
+#![allow(unreachable_pub, dead_code, unused_imports)]
